@@ -321,6 +321,10 @@ def flush_lean(ctx, lean_cases):
         if model is None or spec is None:
             ctx.fail("corr:driver-error", "driver could not answer", c.replay_data({"answer": a}), kind="correspondence")
             continue
+        if "internal" in c.impl and "internal" in model and c.impl["internal"] != model["internal"]:
+            ctx.fail("corr:model-vs-impl:exception-class:%s-vs-%s" % (c.impl["internal"], model["internal"]),
+                     "the real executor and the model fail with different exception classes",
+                     c.replay_data({"impl": c.impl, "model": model}), kind="correspondence")
         if not X.results_agree(c.impl, model, dedup_locs=False):
             ctx.fail("corr:model-vs-impl:%s:%s" % (classify(c.impl, model), features_sig(c.text)),
                      "Lean model of the executor and the real executor differ",
